@@ -97,3 +97,53 @@ Example ex_c09_case :
             [[(1, 0%N); (0, 5%N)]; [(2, 9%N)]], 2%N) =
   ((Some 1, Some 0, Some 3, Some 1)%Z, true, true, true).
 Proof. vm_compute. reflexivity. Qed.
+
+(* ------------------------------------------------------------------ *)
+(* Binary64 part (Model/PackFloat.v on top of Model/FloatData2Coord.v): the key VALUES.
+   The theorems above leave the key abstract ([hkey]); here it is the bit-exact float
+   model of GeoSeries.hilbert_distance, and harness/c09.py / c09_float.py compare the
+   index of every packed frame with it in the kernel (no tolerance, no call of the
+   library's own hilbert_distance for the reference).                                   *)
+(* ------------------------------------------------------------------ *)
+From SP Require Import Model.Hilbert Model.FloatData2Coord Model.PackFloat
+                       Proofs.PackFloatProofs.
+
+(* every row of the packed frame's key column is f_hd1 of the row's own bounds row
+   against the (widened) total bounds of the whole Dask frame, for EVERY binary64 input
+   (NaN rows of missing elements, infinities, signed zeros, zero widths) and every
+   input partitioning; the key column has the shape of the input partitions *)
+Theorem C09_f_own_key :
+  forall parts p keys,
+    f_pack_keys parts p = Some keys ->
+    concat keys = map (f_hd1 (f_key_tb (f_dask_total_bounds parts)) p) (concat parts) /\
+    map (@length N) keys = map (@length frow) parts.
+Proof. exact f_pack_keys_own_key. Qed.
+Print Assumptions C09_f_own_key.
+
+(* PARTIAL: two partitionings of the same rows get the same keys row by row GIVEN that the
+   total-bounds tuple captured by _with_hilbert_distance_column is the same.  That
+   nanmin / nanmax over the partitions of the per-partition nanmin / nanmax equals the
+   nanmin / nanmax over all rows (order theory of binary64 [<?] with NaN skipped, zero
+   signs irrelevant to the keys) is not proved; the kernel evaluates the two-level
+   reduction on the real input partitions of every packing of every run. *)
+Theorem C09_f_key_partition_independent_partial :
+  forall tb p parts parts' keys keys',
+    concat parts = concat parts' ->
+    f_with_hilbert_distance_column tb p parts = Some keys ->
+    f_with_hilbert_distance_column tb p parts' = Some keys' ->
+    concat keys = concat keys'.
+Proof. exact f_keys_partition_independent. Qed.
+Print Assumptions C09_f_key_partition_independent_partial.
+
+(* non-vacuity (statements and witnesses in Proofs/PackFloatProofs.v, closed by vm_compute):
+   a frame of non-representable decimals (0.1, 0.5), (0.7, 1.5), a missing row, (102.5, 35.0)
+   packed with p = 10 from one and from four input partitions (one empty, one holding the
+   missing row): same keys 0, 999, 0, 699050 *)
+Example ex_f_pack_keys : ex_f_pack_keys_stmt.
+Proof. exact ex_f_pack_keys_holds. Qed.
+
+(* why the order of the float operations is part of what is checked: on the decimal grid
+   0.1, 0.2, ..., 102.5 with 1024 cells the station 0.7 lies in cell 6 as _data2coord
+   computes it, (v - lo) * (n / width), and in cell 5 with (v - lo) / width * n *)
+Example ex_f_operation_order_matters : ex_f_operation_order_stmt.
+Proof. exact ex_f_operation_order_holds. Qed.
